@@ -78,7 +78,7 @@ def run(ctx):
                                                  'history': c['ops'], 'implementation': (got or '')[:3000], 'model': (model.get(c['id']) or '')[:3000],
                                                  'line': c['line']})
     cov = {'evaluations': len(cases), 'operations': nops, 'distinct_nontrivial': len(distinct),
-           'rule': 'histories of 5-25 API operations on up to three instances created with different user data and time limits (none, 125 ms, 250 ms under a virtual clock): calls of every type (s, p, 1, unknown) with succeeding, runtime-failing, throwing, unparsable, unpreprocessable, non-terminating and spawning scripts, config loads (good, unparsable, unpreprocessable), status queries, destroy, entry points on a null and on a foreign handle; probe scripts turn "is this global set" into a return code, so persistence within an instance and isolation between instances are observed through the API alone; oracle: return code expected from the history, status 0 after every call, user data and call data of every callback; the model must reproduce return codes and the level, user data and call data of every callback; distinct by history text',
+           'rule': 'histories of 5-25 API operations on up to three instances created with different user data and time limits (none, 125 ms, 250 ms under a virtual clock): calls of every type (s, p, 1, unknown) with succeeding, runtime-failing, throwing, unparsable, unpreprocessable, non-terminating and spawning scripts, config loads (good, unparsable, unpreprocessable), status queries, destroy, entry points on a null and on a foreign handle; probe scripts turn "is this global set" into a return code, so persistence within an instance and isolation between instances are observed through the API alone; oracle: return code expected from the history, status 0 after every call, user data and call data of every callback; the model must reproduce return codes and the level, user data and call data of every callback; distinct by history text; histories also hold calls whose text is evaluated while it is preprocessed (__EVAL, also spawning a script in a call that executes nothing), calls that end their run with exit__, texts with #define / #ifdef of one macro name spread over the calls, assembly texts that are rejected, calls that select a print mode (toFixed) and later calls that print numbers',
            'samples': samples, 'oracle_failures': n_or, 'model_mismatches': n_mm, 'generator_counts': g.stats}
     return rep.finish(cov, ['the preprocessor is a parameter of the model: the histories use texts it passes through unchanged or rejects (#bogus)',
                             "the assembly ('a') and SQC ('c') call types are not exercised",
